@@ -781,7 +781,8 @@ pub fn c09(ctx: &Ctx, rep: &mut Report) {
             chunking: gen::gen_chunking(&mut rng),
             interrupts: Interrupts::None,
         };
-        let exact_mode = !long && idx % 4 == 3;
+        // (idx / 2: the format alternates with idx, both formats get every mode)
+        let exact_mode = !long && (idx / 2) % 4 == 3;
         let ops = if long {
             // read everything with next() or with sets
             let n = r.recs.len() + 2;
@@ -814,6 +815,10 @@ pub fn c09(ctx: &Ctx, rep: &mut Report) {
         add_stats(rep, &out);
         rep.map("format", fmt.name());
         rep.map("mode", if long { "long-fitting" } else if exact_mode { "with-exact" } else { "plain" });
+        rep.map(
+            "mode_x_format",
+            &format!("{}:{}", if long { "long-fitting" } else if exact_mode { "with-exact" } else { "plain" }, fmt.name()),
+        );
         if long {
             rep.count("long_inputs");
             if out.stats.grow_calls == 0 {
